@@ -373,6 +373,9 @@ void run_fn1(vf::Ctx& c, Fn1 const& f, std::uint64_t nsamples, vf::Rng& rng)
         }
         ++total;
         nt += is_nt(x);
+        if ((i & 0xFFFF) == 0x1234) {
+            vf::sample(f.name, [&] { return std::string(f.name) + " " + BitsOf<T>::name + " " + show_arg(x); });
+        }
     }
     vf::nontrivial_count(nt);
     auto& cl = vf::stats().classes[std::string("approx.") + BitsOf<T>::name + ".nontrivial argument"];
